@@ -308,7 +308,27 @@ def alias_probes(oracle):
 
 APP = ("import dep_mod\nconst my_const = 1\ntype MyType { MyVariant(my_field: Int) }\ntype MyAlias = Int\n"
        "fn my_fn(my_local) { my_local + my_const }\nfn user(x: MyType) { dep_mod.helper() x.my_field }\n")
-DEP = "pub fn helper() { 1 }\n"
+DEP = ("pub fn helper() { 1 }\npub const dep_const = 1\npub type DepType { DepVariant(dep_field: Int) }\npub type DepAlias = Int\n"
+       "pub fn dep_fn(dep_param) { let dep_let = dep_param  case dep_let { dep_bound -> dep_bound + dep_const } }\n")
+# every kind of definition INSIDE a file of the dependency (cursor on the declaration, and on a use where there is one)
+DEP_PROBES = [('function', 'helper', 'fresh_name'), ('constant', 'dep_const', 'fresh_name'), ('type', 'DepType', 'FreshName'), ('constructor', 'DepVariant', 'FreshName'),
+              ('field', 'dep_field', 'fresh_name'), ('type alias', 'DepAlias', 'FreshName'), ('parameter', 'dep_param', 'fresh_name'), ('let binding', 'dep_let', 'fresh_name'),
+              ('case-pattern variable', 'dep_bound', 'fresh_name')]
+
+
+def dependency_probes(oracle):
+    """rename / prepare_rename with the cursor INSIDE a file of the build/packages dependency, on every kind of definition -> [(what, accepted by, answer)] for accepted ones"""
+    out = []
+    for what, needle, nm in DEP_PROBES:
+        offs = [m.start() for m in re.finditer(r'\b%s\b' % needle, DEP)]
+        for off in offs:
+            nat = oracle.ask('rename', json.dumps(fixture(1, off, nm)))
+            r = nat.get('rename', {}); pr = nat.get('prepare', {})
+            if r.get('ok') is True and r.get('edits'):
+                out.append((what, 'rename', 'rename of the %s `%s` (cursor at offset %d of build/packages/dep/src/dep_mod.gleam) to %r -> edits %s' % (what, needle, off, nm, json.dumps(r.get('edits'))[:160])))
+            if pr.get('ok') is True:
+                out.append((what, 'prepare_rename', 'prepare_rename on the %s `%s` (offset %d of build/packages/dep/src/dep_mod.gleam) -> %s' % (what, needle, off, json.dumps(pr)[:160])))
+    return out
 NEEDLE = {'Function': 'my_fn', 'ModuleConstant': 'my_const', 'Field': 'my_field', 'Local': 'my_local', 'Adt': 'MyType', 'TypeAlias': 'MyAlias',
           'Variant': 'MyVariant', 'Module': 'dep_mod', 'BuiltIn': 'Int'}
 VALID = {'Function': 'fresh_name', 'ModuleConstant': 'fresh_name', 'Field': 'fresh_name', 'Local': 'fresh_name', 'Adt': 'FreshName', 'TypeAlias': 'FreshName',
@@ -344,7 +364,13 @@ def confirm(chk, res, oracle, label):
                     okc = r.get('ok') is True and any(e[0] == 1 for e in r.get('edits', []))
                 else:
                     okc = nat.get('prepare', {}).get('ok') is True
-                chk.violation('%s:locality' % fn, 'bounded', '%s: %s; public API on a symbol defined under build/packages: %s' % (label, why, json.dumps(nat)[:300]),
+                detail = json.dumps(nat)[:300]
+                if not okc:
+                    # the cursor inside the dependency's own file, every kind of definition
+                    inside = [p_ for p_ in dependency_probes(oracle) if p_[1] == fn]
+                    if inside:
+                        okc = True; detail = inside[0][2]
+                chk.violation('%s:locality' % fn, 'bounded', '%s: %s; public API on a symbol defined under build/packages: %s' % (label, why, detail),
                               {'fn': fn, 'symbol': 'dep_mod.helper'}, confirmed=okc)
             else:
                 m = re.search(r'accepts a (\w+) definition', why)
@@ -460,6 +486,13 @@ def main(tier, seed):
         else:
             chk.validated += len(probes)
             chk.log('alias refusal: %d/%d aliased spellings are refused by rename and prepare_rename through the public API' % (len(probes), len(probes)))
+        # d) no edit in a dependency, whatever the cursor is on: every kind of definition inside the dependency's own file (public API)
+        inside = dependency_probes(oracle)
+        reported = any(v['site'].endswith(':locality') and v.get('confirmed', True) for v in chk.viol)
+        if inside and not reported:
+            chk.violation('%s:locality:inside-dependency' % inside[0][1], 'probe', 'a definition of a build/packages dependency is accepted: %s' % inside[0][2], {'probe': inside[0][0], 'fn': inside[0][1]}, confirmed=True)
+        elif not inside:
+            chk.validated += sum(len(re.findall(r'\b%s\b' % n_, DEP)) for _, n_, _ in DEP_PROBES)
     finally:
         oracle.close(); W2.cleanup()
     # on-disk scenario (real binary): a dependency and a dev-dependency under build/packages - rename must be refused in both
